@@ -407,8 +407,8 @@ InitList == SeqOfSet({o \in AllObjs : inited[o] > 0})
 
 Post ==
   /\ phase = "post"
-  /\ LET rt == IF outcome[round] # "ok" THEN Reachable ELSE {} IN
-     /\ retained' = rt
+  /\ LET rt == IF round = 1 /\ outcome[1] # "ok" THEN Reachable ELSE {} IN   \* observed for the load under test only
+     /\ retained' = IF round = 1 THEN rt ELSE retained
      /\ snap' = IF round = 1 THEN [instr |-> StSeq, store |-> StoreSeq, retained |-> SeqOfSet(rt), inits |-> InitList]
                 ELSE snap
      /\ Emit([Ev("Post", 0, 0, "") EXCEPT !.b = outcome[round] = "ok", !.refs = rt])
